@@ -452,3 +452,232 @@ def denm_from_request(ctx):
         if not unknown:
             ctx.prove(f"{flavour}-no-member-silently-dropped", I, FALSE, vars=vars_, replay=replay)
     ctx.bound("event position over the whole signed range incl. unavailable codes, interval 100..10000 ms, detection time 42 bits, station id 32 bits")
+
+
+# ---------------------------------------------------------------------------------------------- E1 whole CAM handed to the coder
+@vc("C11", "E1-cam-whole-message")
+def cam_whole(ctx):
+    """CAMTransmissionManagement._generate_and_send_cam: the complete CAM (basic, HF, LF with path history, special vehicle and
+    extension containers) handed to the coder conforms to the ASN.1 for every report, role, station type and container schedule"""
+    I = make("bv", 64, fmode="fp")
+    clock = Clock(I)
+    I.stubs[TimeService.time] = clock.read
+    rep = Report(I)
+    encoded = []
+    coder = Opaque("coder")
+
+    def cod(it, name, a, k, pc):
+        if name == "encode":
+            encoded.append((pc, a[0]))
+            return SBytes([z3.BitVec(it.fresh("uper"), 8) for _ in range(3)])
+        return b"\x00"
+    I.stubs[id(coder)] = cod
+    btp = Opaque("btp")
+    I.stubs[id(btp)] = lambda it, name, a, k, pc: None
+    role = I.int_var("vehicle_role", 0, 15)
+    stype = I.int_var("station_type", 0, 15)
+    has_special = z3.Bool("has_special_vehicle_data")
+    special = ("emergencyContainer", {"lightBarSirenInUse": (b"\x80", 2)})
+    vd = Obj(VehicleData, dict(station_id=I.int_var("station_id", 0, 4294967295), station_type=stype, drive_direction="forward",
+                               vehicle_length={"vehicleLengthValue": 42, "vehicleLengthConfidenceIndication": "unavailable"}, vehicle_width=20,
+                               vehicle_role=role, exterior_lights=b"\x00", special_vehicle_data=Guarded([(has_special, special), (z3.Not(has_special), None)])))
+    # path history: two earlier CAM positions
+    hist = []
+    for n in (1, 2):
+        hist.append((TRUE, (I.float_var(f"h{n}_lat", -90, 90), I.float_var(f"h{n}_lon", -180, 180), I.int_var(f"h{n}_time_ms", 0, 2 ** 41))))
+    nhist = I.int_var("history_entries", 0, 2)
+    path_history = SList([(nhist >= 1, hist[0][1]), (nhist >= 2, hist[1][1])])
+    from unittest import mock
+    real = CAMTransmissionManagement(mock.Mock(), mock.Mock(), VehicleData())
+    f = dict(vars(real))
+    cnt = I.int_var("cam_count", 0, 1000)
+    last = I.int_var("last_cam_ms", 0, 2 ** 41)
+
+    def opt_ms(name):
+        p = z3.Bool(name + "_set")
+        return Guarded([(p, I.int_var(name, 0, 2 ** 41)), (z3.Not(p), None)])
+    f.update(logging=logger(I), btp_router=btp, vehicle_data=vd, cam_coder=coder, ca_basic_service_ldm=None, _path_history=path_history,
+             _cam_count=cnt, _last_cam_time_ms=Guarded([(cnt > 0, last), (cnt == 0, None)]), _last_lf_time_ms=opt_ms("last_lf_ms"),
+             _last_vlf_time_ms=opt_ms("last_vlf_ms"), _last_special_time_ms=opt_ms("last_special_ms"), t_gen_cam=I.int_var("t_gen_cam", 100, 1000),
+             _n_gen_cam_counter=I.int_var("n_gen_cam_counter", 0, 2), _last_cam_heading=None, _last_cam_lat=None, _last_cam_lon=None, _last_cam_speed=None)
+    o = Obj(CAMTransmissionManagement, f)
+    now_ms = I.int_var("now_ms", 0, 2 ** 41)
+    I.stubs[CAMTransmissionManagement._update_send_state] = lambda it, a, k, pc: None
+    I.call_function(CAMTransmissionManagement._generate_and_send_cam, [o, rep.tpv, now_ms, 1])
+    exc = cond_or(c for c, _ in I.raises)
+    vars_ = rep.vars()
+    vars_.update(vehicle_role=role, station_type=stype, has_special_vehicle_data=has_special, history_entries=nhist, cam_count=cnt, now_ms=now_ms)
+    for n in (1, 2):
+        vars_.update({f"h{n}_lat": hist[n - 1][1][0], f"h{n}_lon": hist[n - 1][1][1], f"h{n}_time_ms": hist[n - 1][1][2]})
+    vars_.update(clock.vars())
+
+    def replay(vals):
+        coder_ = asn.compiled("CAM")[0]
+        sent = []
+        btp_ = mock.Mock()
+        btp_.btp_data_request.side_effect = lambda r: sent.append(r)
+        vdr = VehicleData(station_id=7, station_type=vals["station_type"], vehicle_role=vals["vehicle_role"],
+                          special_vehicle_data=special if vals["has_special_vehicle_data"] else None)
+        m = CAMTransmissionManagement(btp_, coder_, vdr)
+        m._cam_count = vals["cam_count"]
+        m._last_cam_time_ms = vals["now_ms"] - 200 if vals["cam_count"] else None
+        for n in range(vals["history_entries"]):
+            m._path_history.append((vals[f"h{n + 1}_lat"], vals[f"h{n + 1}_lon"], vals[f"h{n + 1}_time_ms"]))
+        tpv = rep.concrete(vals)
+        built = []
+        orig = CAMTransmissionManagement._send_cam
+
+        def spy(self_, cam):
+            built.append(cam.cam)
+            return orig(self_, cam)
+        times = [vals[n] for n in sorted(clock.vars())] or [1.7e9]
+        with mock.patch.object(CAMTransmissionManagement, "_send_cam", spy), \
+                mock.patch.object(TimeService, "time", staticmethod(lambda: times[0])):
+            m._generate_and_send_cam(tpv, vals["now_ms"], 1)
+        if not built:
+            return True, "no CAM built"
+        bad = asn.concrete_violations("CAM", built[0])
+        if not sent:
+            bad.append("the real coder refused the CAM (nothing handed to BTP)")
+        else:
+            try:
+                dec = coder_.decode(sent[0].data)
+                want, got = py_spec(tpv, "CAM"), extract("CAM", dec)
+                bad += [f"{k}: decoded {got[k]}, expected {w}" for k, w in want.items() if got[k] != w]
+            except Exception as e:
+                bad.append(f"decode raised {type(e).__name__}: {e}")
+        return bool(bad), f"report {tpv}, role {vals['vehicle_role']}, station type {vals['station_type']}: " + ("; ".join(bad) or "conforms")
+    enc_any = cond_or(c for c, _ in encoded)
+    ctx.witness("reach-lf-with-history", I, z3.And(enc_any, z3.Not(exc), nhist == 2, rep.has["lat"], rep.has["lon"]), vars=vars_)
+    ctx.prove("no-exception", I, exc, vars=vars_, replay=replay, desc="CAM generation never raises, whatever the report contains")
+    ctx.prove("exactly-one-cam-encoded", I, z3.Not(z3.PbEq([(c, 1) for c, _ in encoded], 1)) if encoded else TRUE, vars=vars_, replay=replay)
+    cf = asn.Conformance(I)
+    for c, d in encoded:
+        cf.check(d, asn.compiled("CAM")[1], pc=c)
+    by_path = {}
+    for c, p, m in cf.bad:
+        by_path.setdefault(p.split("[")[0], []).append(c)
+    for p, cs in sorted(by_path.items()):
+        ctx.prove(f"asn1-constraint{p}", I, z3.Or(*cs), vars=vars_, replay=replay)
+    ctx.bound(f"{cf.leaves} leaves; vehicle role 0..15, station type 0..15, with/without special-vehicle data, CAM count / last LF / VLF / special times arbitrary, "
+              "0..2 path-history points anywhere on the globe with arbitrary times; report as in E1-cam-report-mapping")
+    ctx.stub("CAM coder encode records the dictionary; encode_extension_container returns one octet; BTP router ignored; _update_send_state skipped (C10)")
+
+
+# ---------------------------------------------------------------------------------------------- E1 VRU cluster containers
+@vc("C11", "E1-vam-cluster-containers")
+def cluster_containers(ctx):
+    """VBSClusteringManager.get_cluster_information_container / get_cluster_operation_container in every clustering state"""
+    import flexstack.facilities.vru_awareness_service.vru_clustering as VC
+    from flexstack.facilities.vru_awareness_service.vru_clustering import (VBSClusteringManager, VBSState, ClusterLeaveReason, ClusterBreakupReason,
+                                                                             _JoinSubstate, _LeaveSubstate, _ClusterState)
+    t_info = asn.type_at("VAM", "vam", "vamParameters", "vruClusterInformationContainer")
+    t_op = asn.type_at("VAM", "vam", "vamParameters", "vruClusterOperationContainer")
+    real = VBSClusteringManager(1)
+
+    def guarded_enum(name, members, allow_none=True):
+        ch = z3.Int(name)
+        alts = [(ch == i, m) for i, m in enumerate(members)]
+        if allow_none:
+            alts.append((z3.Or(ch < 0, ch >= len(members)), None))
+            rng = z3.And(ch >= -1, ch < len(members))
+        else:
+            rng = z3.And(ch >= 0, ch < len(members))
+        return Guarded(alts), ch, rng
+
+    for state in (VBSState.VRU_ACTIVE_CLUSTER_LEADER, VBSState.VRU_ACTIVE_STANDALONE, VBSState.VRU_PASSIVE, VBSState.VRU_IDLE):
+        I = make("int")
+        now = I.float_var("now", 1.6e9, 2.3e9)
+        f = dict(vars(real))
+        f["_time_fn"] = Opaque("time_fn")
+        I.stubs[id(f["_time_fn"])] = lambda it, name, a, k, pc, now=now: now
+        vars_ = {"now": now}
+        f["_state"] = state
+        cid = I.int_var("cluster_id", 1, 255)
+        card = I.int_var("cardinality", 1, 255)
+        radius = I.float_var("radius", 0, 4095)
+        has_b = z3.Bool("breaking_up")
+        bstart = I.float_var("breakup_started", 1.6e9, 2.3e9)
+        I.assumptions.append(bstart <= now)
+        breason, bch, brng = guarded_enum("breakup_reason", list(ClusterBreakupReason))
+        I.assumptions.append(brng)
+        nprof = z3.Bool("has_profiles")
+        vars_.update(cluster_id=cid, cardinality=card, radius=radius, breaking_up=has_b, breakup_started=bstart, breakup_reason=bch, has_profiles=nprof)
+        if state is VBSState.VRU_ACTIVE_CLUSTER_LEADER:
+            f["_cluster"] = Obj(_ClusterState, dict(cluster_id=cid, cardinality=card, profiles=SDict([(nprof, "pedestrian", True, False)], is_set=True),
+                                                    radius=radius, breakup_started=Guarded([(has_b, bstart), (z3.Not(has_b), None)]),
+                                                    breakup_reason=breason, pending_members=SDict(is_set=True)))
+        js, jch, jrng = guarded_enum("join_substate", list(_JoinSubstate), allow_none=False)
+        ls, lch, lrng = guarded_enum("leave_substate", list(_LeaveSubstate), allow_none=False)
+        jr, jrch, jrrng = guarded_enum("join_leave_reason", list(ClusterLeaveReason))
+        lr, lrch, lrrng = guarded_enum("leave_reason", list(ClusterLeaveReason))
+        I.assumptions += [jrng, lrng, jrrng, lrrng]
+        jstart = I.float_var("join_started", 1.6e9, 2.3e9)
+        I.assumptions.append(jstart <= now)
+        has_target, has_lcid = z3.Bool("has_join_target"), z3.Bool("has_leave_cluster_id")
+        f.update(_join_substate=js, _leave_substate=ls, _join_leave_reason=jr, _leave_reason=lr,
+                 _join_started=Guarded([(z3.Bool("has_join_started"), jstart), (z3.Not(z3.Bool("has_join_started")), None)]),
+                 _join_target_cluster_id=Guarded([(has_target, I.int_var("join_target", 0, 255)), (z3.Not(has_target), None)]),
+                 _leave_cluster_id=Guarded([(has_lcid, I.int_var("leave_cluster_id", 0, 255)), (z3.Not(has_lcid), None)]))
+        vars_.update(join_substate=jch, leave_substate=lch, join_leave_reason=jrch, leave_reason=lrch, join_started=jstart,
+                     has_join_started=z3.Bool("has_join_started"), has_join_target=has_target, has_leave_cluster_id=has_lcid)
+        o = Obj(VBSClusteringManager, f)
+        info = I.call_function(VBSClusteringManager.get_cluster_information_container, [o])
+        op = I.call_function(VBSClusteringManager.get_cluster_operation_container, [o])
+        exc = cond_or(c for c, _ in I.raises)
+        tag = state.name
+
+        def replay(vals, state=state):
+            m = VBSClusteringManager(1, time_fn=lambda: vals["now"])
+            m._state = state
+            if state is VBSState.VRU_ACTIVE_CLUSTER_LEADER:
+                br = list(ClusterBreakupReason)
+                m._cluster = _ClusterState(cluster_id=vals["cluster_id"], cardinality=vals["cardinality"], radius=vals["radius"],
+                                           profiles={"pedestrian"} if vals["has_profiles"] else set(),
+                                           breakup_started=vals["breakup_started"] if vals["breaking_up"] else None,
+                                           breakup_reason=br[vals["breakup_reason"]] if 0 <= vals["breakup_reason"] < len(br) else None)
+            lrs = list(ClusterLeaveReason)
+            m._join_substate = list(_JoinSubstate)[vals["join_substate"]]
+            m._leave_substate = list(_LeaveSubstate)[vals["leave_substate"]]
+            m._join_leave_reason = lrs[vals["join_leave_reason"]] if 0 <= vals["join_leave_reason"] < len(lrs) else None
+            m._leave_reason = lrs[vals["leave_reason"]] if 0 <= vals["leave_reason"] < len(lrs) else None
+            m._join_started = vals["join_started"] if vals["has_join_started"] else None
+            m._join_target_cluster_id = vals.get("join_target") if vals["has_join_target"] else None
+            m._leave_cluster_id = vals.get("leave_cluster_id") if vals["has_leave_cluster_id"] else None
+            bad = []
+            try:
+                ci, co = m.get_cluster_information_container(), m.get_cluster_operation_container()
+            except Exception as e:
+                return True, f"{state.name}: raised {type(e).__name__}: {e}"
+            if ci is not None:
+                bad += asn.concrete_violations("VAM", ci, t_info)
+            if co is not None:
+                bad += asn.concrete_violations("VAM", co, t_op)
+            return bool(bad), f"{state.name}: " + ("; ".join(bad) or "conform")
+        vars_["join_target"] = [x for c, x in f["_join_target_cluster_id"].alts if x is not None][0]
+        vars_["leave_cluster_id"] = [x for c, x in f["_leave_cluster_id"].alts if x is not None][0]
+        ctx.witness(f"{tag}-reach", I, z3.Not(exc), vars=vars_)
+        ctx.prove(f"{tag}-no-exception", I, exc, vars=vars_, replay=replay)
+        cf = asn.Conformance(I)
+        for val, t, nm in ((info, t_info, "info"), (op, t_op, "operation")):
+            alts = val.alts if isinstance(val, Guarded) else [(TRUE, val)]
+            for c, x in alts:
+                if x is None or isinstance(x, Undefined):
+                    continue
+                cf.check(x, t, pc=c, path=nm)
+        by_path = {}
+        for c, p, m in cf.bad:
+            by_path.setdefault(p, []).append(c)
+        for p, cs in sorted(by_path.items()):
+            ctx.prove(f"{tag}-asn1-{p}", I, z3.Or(*cs), vars=vars_, replay=replay,
+                      desc=f"cluster container member {p} has the shape / range the VAM ASN.1 demands")
+        if state is VBSState.VRU_ACTIVE_CLUSTER_LEADER:
+            n0 = len(I.raises)
+            got_id = path_get(I, info, "vruClusterInformation", "clusterId")
+            got_card = path_get(I, info, "vruClusterInformation", "clusterCardinalitySize")
+            del I.raises[n0:]
+            ctx.prove(f"{tag}-info-carries-own-cluster", I, z3.Or(z3.Not(num_eq(I, got_id, cid)), z3.Not(num_eq(I, got_card, card))), vars=vars_, replay=replay)
+        else:
+            ctx.prove(f"{tag}-no-information-container", I, z3.BoolVal(info is not None), vars=vars_, replay=replay,
+                      desc="only a cluster leader attaches a cluster information container")
+    ctx.bound("every VBS state; join/leave sub-states, reasons (incl. unset), cluster id 1..255, cardinality 1..255, radius 0..4095 m, notification start times symbolic (real-valued clock)")
